@@ -509,6 +509,65 @@ def fam_chem(draw, max_heavy=12):
     return draw(decorate(zs, edges, fam))
 
 
+# ---- many components --------------------------------------------------------------
+
+
+def _cubic8():
+    """The five connected cubic graphs on 8 vertices share degree sequence and 1-WL colours;
+    two of them: the cube and the 'twisted' cube (Moebius-ladder-like C8 with chords)."""
+    cube = _hypercube(3)[1]
+    moeb = _moebius(4)[1]
+    # cuneane skeleton
+    cun = [(0, 1), (1, 2), (2, 3), (3, 0), (0, 4), (1, 5), (2, 6), (3, 7), (4, 5), (6, 7), (4, 6), (5, 7)]
+    return [(8, cube), (8, moeb), (8, cun)]
+
+
+WL_TWINS = [
+    [_prism(3), (6, _complete_bipartite(3, 3))],
+    _cubic8(),
+    [(6, _cycle(6)), _copies(3, _cycle(3), 2)],
+    [(7, _cycle(7)), (7, _cycle(3) + [(a + 3, b + 3) for a, b in _cycle(4)])],
+]
+FILLERS = [
+    ([8, 1, 1], [(0, 1), (0, 2)]),
+    ([11], []),
+    ([17], []),
+    ([1, 17], [(0, 1)]),
+    ([6, 8, 8], [(0, 1), (0, 2)]),
+    ([7, 1, 1, 1], [(0, 1), (0, 2), (0, 3)]),
+    ([2], []),
+]
+
+
+@st.composite
+def fam_multi(draw, max_components=40):
+    """Many-component molecules (threshold principle: several times the corpus maximum of
+    8 components), containing non-isomorphic fragments that colour refinement cannot tell
+    apart, identical fragments several times, and small fillers."""
+    k = draw(boundary_ints(2, max_components, extra=(8, 9, 12, 13, 14, 16, 17, 32, 33)))
+    zs, edges = [], []
+    ncomp = 0
+
+    def add(fz, fe):
+        nonlocal ncomp
+        off = len(zs)
+        zs.extend(fz)
+        edges.extend((a + off, b + off) for a, b in fe)
+        ncomp += 1
+
+    z = draw(st.sampled_from([6, 6, 14, 5]))
+    for _ in range(draw(st.integers(0, 2))):
+        group = draw(st.sampled_from(WL_TWINS))
+        members = draw(st.lists(st.sampled_from(group), min_size=2, max_size=3))
+        for n0, e0 in members:
+            add([z] * n0, e0)
+    while ncomp < k:
+        fz, fe = draw(st.sampled_from(FILLERS))
+        add(fz, fe)
+    mode = draw(st.sampled_from(["none", "none", "one", "sparse"]))
+    return draw(decorate(zs, edges, f"multi:{ncomp}comp", label_mode=mode))
+
+
 # ---- deep refinement --------------------------------------------------------------
 
 
@@ -556,6 +615,37 @@ def fam_deep(draw, max_n=300):
     n = len(zs)
     atoms = [[zs[i], masses[i] if masses else 0, 0, 0, float(i), 0.0, 0.0] for i in range(n)]
     return {"atoms": atoms, "bonds": [[a, b, 1] for a, b in edges], "family": "deep:" + kind}
+
+
+# ---- long refinement relative to size ---------------------------------------------
+
+_SLOW = None
+
+
+def slow_catalogue():
+    """Catalogue of small graphs whose colour refinement needs far more than n/2 rounds
+    (found by tools/find_slow_wl.py, committed under catalogue/)."""
+    global _SLOW
+    if _SLOW is None:
+        import json
+
+        path = os.path.join(os.path.dirname(os.path.dirname(os.path.abspath(__file__))), "catalogue", "long_refinement.json")
+        try:
+            _SLOW = json.load(open(path))
+        except (OSError, ValueError):
+            _SLOW = []
+    return _SLOW
+
+
+@st.composite
+def fam_slowwl(draw):
+    cat = slow_catalogue()
+    if not cat:
+        return draw(fam_deep(60))
+    g = draw(st.sampled_from(cat))
+    z = draw(st.sampled_from([6, 15, 14, 5, 7]))
+    atoms = [[z, 0, 0, 0, float(i), 0.0, 0.0] for i in range(g["n"])]
+    return {"atoms": atoms, "bonds": [[a, b, 1] for a, b in g["edges"]], "family": f"deep:slowwl:r{g['rounds']}of{g['n']}"}
 
 
 # ---- corpus -----------------------------------------------------------------------
@@ -609,15 +699,16 @@ def fam_corpus(draw, max_n=200):
 # ------------------------------------------------------------------------ mixtures
 
 
-def mols(tier="quick", families=("er", "skeleton", "wlhard", "chem", "deep", "corpus"), wide=False):
+def mols(tier="quick", families=("er", "skeleton", "wlhard", "chem", "deep", "corpus", "multi"), wide=False):
     q = tier == "quick"
     table = {
         "er": [fam_er(14 if q else 20, wide=wide), fam_er(8, wide=wide), fam_er(40 if q else 80, wide=wide)],
         "skeleton": [fam_skeleton(big=not q), fam_skeleton(big=not q)],
         "wlhard": [fam_wlhard(216 if q else 432)],
         "chem": [fam_chem(12 if q else 30), fam_chem(6)],
-        "deep": [fam_deep(120 if q else 600)],
+        "deep": [fam_deep(120 if q else 600), fam_slowwl()],
         "corpus": [fam_corpus(120 if q else 400)],
+        "multi": [fam_multi(40 if q else 120)],
     }
     parts = []
     for f in families:
